@@ -138,6 +138,16 @@ func solveOne(o *Obligation, file string, timeout int, twoSolvers bool, stats *s
 	res, out, sec := runSolver(solvers[0], file, first, false)
 	record(solvers[0].name, sec)
 	o.Seconds += sec
+	if o.Cover {
+		// vacuity checks: only a definite "unsat" is a failure; unknown is inconclusive
+		o.Result, o.Solver = res, solvers[0].name
+		if res == "sat" {
+			stats.mu.Lock()
+			stats.byBackend[o.Solver]++
+			stats.mu.Unlock()
+		}
+		return
+	}
 	confirm := 0
 	if res == want {
 		o.Result, o.Solver = res, solvers[0].name
